@@ -10,9 +10,14 @@ Space (every member is visited):
                x order in which the per-parser options are added {declaration   5 commands: not given,
                  order, reverse}                                                 declaration order)
                x hash seeds {own} (quick) / {0, 1, 2} (thorough; other seeds run in sub-processes)
-  argv         : for every real command c and every parser p: [c, --opt-p, v]; for every real c:
-                 [c], [c, --common, v], [c, -v], [c, --color, never], [c, --no-color]; and without a
-                 command name: [], [-v], [--common, v], [--opt-p, v] for every parser p
+  options      : per parser one value option (--opt-<name> V) and one flag with a short alias
+                 (-<letter> / --flag-<name>, store_true); one option added to the ArgParser itself
+  argv         : for every real command c and every parser p: [c, --opt-p, v], [c, --flag-p], [c, -p];
+                 for every real c: [c], all options c must accept in one argv, [c, --common, v], [c, -v],
+                 [c, --color, never], [c, --no-color]; and without a command name: [], [-v],
+                 [--common, v], [--opt-p, v], [--flag-p] for every parser p
+  seq          : every ordered pair of declarations with <= 3 commands (63 x 63), both built in one freshly
+                 reloaded ak.cli_tools module: first probed, second built and probed, first probed again
 Oracle (models/cli_model.py): transitive closure of the declared parents.
 """
 
@@ -55,7 +60,7 @@ REQUIRED_FEATURES = ["shape:no-edges", "shape:multi-parent", "shape:transitive",
                      "default:implicit", "parents-iterated:declared-order", "parents-iterated:other-order",
                      "probe:own-option", "probe:inherited-direct", "probe:inherited-transitive",
                      "probe:foreign-option", "probe:common-option", "probe:std-option",
-                     "probe:no-command"]
+                     "probe:no-command", "probe:all-inherited-at-once", "seq:two-parsers"]
 
 NAMES = ["alpha", "bravo", "carol", "delta", "echo"]
 THOROUGH_SEEDS = ["0", "1", "2"]
@@ -92,6 +97,8 @@ def shards(tier):
         if nmax >= 5:
             for lo in range(0, 1024, 16):
                 out.append((hs, 5, lo, lo + 16))
+    for k in range(16):
+        out.append((seeds[0], "seq", k, 16))
     return out
 
 
@@ -161,136 +168,188 @@ def _parse(parser, argv):
     return ("ok", None, ns)
 
 
-def explore_case(case, acc, report=True):
-    """Build one declaration with the real ArgParser, probe every argv. Returns a result summary."""
-    from ak.cli_tools import ArgParser
+def _letter(name):
+    return "-" + name[0]          # alpha -> -a ... echo -> -e : no clash with -v / -h
+
+
+def _construct(mod, case, acc, feats, bad):
+    """ArgParser for the declaration + one value option and one flag (with a short alias) per parser + one
+    ArgParser-level option.  -> parser or None."""
+    n = case["n"]
+    names = _names(case)
+    shared = "shape:shared-ancestor" in feats
+    kwargs = {}
+    if _dflt(case) is not None:
+        kwargs["default_command"] = names[_dflt(case)]
+    acc.trans()
+    try:
+        ap = mod.ArgParser(_declaration(case), **kwargs)
+    except BaseException as e:  # noqa  (AssertionError, SystemExit, ...)
+        bad("construction-fails-" + ("shared-ancestor" if shared else "plain"),
+            f"ArgParser(commands=...) raised {type(e).__name__} for an acyclic declaration",
+            {"raised": type(e).__name__, "text": str(e)[:200], "declaration": [d[0] for d in _declaration(case)]},
+            "construction succeeds")
+        return None
+    order = list(range(n)) if case["order"] == "fwd" else list(range(n - 1, -1, -1))
+    try:
+        if case["order"] == "rev":
+            acc.trans()
+            ap.add_argument("--common", help="for every command")
+        for i in order:
+            acc.trans(2)
+            cp = ap.get_cmd_parser(names[i])
+            cp.add_argument("--opt-" + names[i], help="option of " + names[i])
+            cp.add_argument(_letter(names[i]), "--flag-" + names[i], action="store_true",
+                            help="flag of " + names[i])
+        if case["order"] == "fwd":
+            acc.trans()
+            ap.add_argument("--common", help="for every command")
+    except BaseException as e:  # noqa
+        bad("add-option-fails-" + ("shared-ancestor" if shared else "plain"),
+            f"adding the options raised {type(e).__name__}",
+            {"raised": type(e).__name__, "text": str(e)[:200]}, "options can be added")
+        return None
+    return ap
+
+
+def _probe_all(ap, case, acc, feats, bad, tag=""):
+    """Every argv of the family against one constructed parser. -> (accepted, rejected)"""
     n = case["n"]
     parents, internal = case["parents"], [bool(x) for x in case["internal"]]
     names = _names(case)
     anc = M.ancestors(parents)
+    paths = M.path_counts(parents)
+    dflt = M.default_command(internal, _dflt(case))
+    real = [i for i in range(n) if not internal[i]]
+    counts = [0, 0]
+    nbad = [0]
+    report_bad = bad
+
+    def bad(sig, msg, obs, exp):          # noqa: F811  (counts the reports of this parser)
+        nbad[0] += 1
+        report_bad(sig, msg, obs, exp)
+
+    def probe(argv, want_cmd, want_attrs, want_ok, kind, sig_ok, sig_rej):
+        acc.trans()
+        st, code, ns = _parse(ap, argv)
+        feats.add(kind)
+        if st == "raise":
+            bad("parse-raises" + tag, f"parse_args({argv}) raised {code}", code, "namespace or SystemExit")
+            return
+        got_ok = st == "ok"
+        counts[0 if got_ok else 1] += 1
+        if want_ok and not got_ok:
+            bad(sig_rej + tag, f"parse_args({argv}) was rejected", f"SystemExit({code})", "accepted")
+        elif not want_ok and got_ok:
+            bad(sig_ok + tag, f"parse_args({argv}) was accepted", {k: v for k, v in sorted(vars(ns).items())},
+                "rejected")
+        elif got_ok:
+            if getattr(ns, "command", None) != names[want_cmd]:
+                bad(("wrong-command" if kind != "probe:no-command" else "default-command-wrong") + tag,
+                    f"parse_args({argv}) selected another command", getattr(ns, "command", None), names[want_cmd])
+                return
+            for attr, val in want_attrs:
+                if getattr(ns, attr, "<absent>") != val or type(getattr(ns, attr, None)) is not type(val):
+                    bad("option-value-lost" + tag, f"parse_args({argv}): value of {attr} not stored",
+                        getattr(ns, attr, "<absent>"), val)
+                    return
+
+    def forms(p):
+        nm = names[p]
+        return [(["--opt-" + nm, "val"], [("opt_" + nm, "val")], ""),
+                (["--flag-" + nm], [("flag_" + nm, True)], ":flag"),
+                ([_letter(nm)], [("flag_" + nm, True)], ":short")]
+
+    for c in real:
+        cmd_before = nbad[0]
+        probe([names[c]], c, [], True, "probe:bare-command", "-", "bare-command-rejected")
+        everything, attrs = [names[c]], []
+        for p in range(n):
+            want = p == c or p in anc[c]
+            if p == c:
+                kind, rej = "probe:own-option", "own-option-rejected"
+            elif p in parents[c]:
+                kind = "probe:inherited-direct"
+                rej = "inherited-option-rejected-" + ("shared-ancestor" if paths[c][p] >= 2 else "direct")
+            elif want:
+                kind = "probe:inherited-transitive"
+                rej = "inherited-option-rejected-" + ("shared-ancestor" if paths[c][p] >= 2 else "transitive")
+            else:
+                kind, rej = "probe:foreign-option", "-"
+            before = nbad[0]
+            for argv, want_attrs, suffix in forms(p):
+                if nbad[0] == before:         # the other spellings only while the first one behaves
+                    probe([names[c]] + argv, c, want_attrs, want, kind, "foreign-option-accepted" + suffix,
+                          rej + suffix)
+            if want:
+                everything += ["--opt-" + names[p], "v" + str(p), _letter(names[p])]
+                attrs += [("opt_" + names[p], "v" + str(p)), ("flag_" + names[p], True)]
+        if nbad[0] == cmd_before:
+            probe(everything + ["--common", "cv", "-vv"], c, attrs + [("common", "cv"), ("verbose", 2)], True,
+                  "probe:all-inherited-at-once", "-", "combined-options-rejected")
+        probe([names[c], "--common", "val"], c, [("common", "val")], True, "probe:common-option",
+              "-", "common-option-rejected")
+        probe([names[c], "-v"], c, [("verbose", 1)], True, "probe:std-option", "-", "std-option-rejected")
+        probe([names[c], "--color", "never"], c, [("color", "never")], True, "probe:std-option",
+              "-", "std-option-rejected")
+        probe([names[c], "--no-color"], c, [], True, "probe:std-option", "-", "std-option-rejected")
+    # argv that does not start with a command name -> the default command
+    probe([], dflt, [], True, "probe:no-command", "-", "default-command-rejected")
+    probe(["-v"], dflt, [("verbose", 1)], True, "probe:no-command", "-", "default-command-rejected")
+    probe(["--common", "val"], dflt, [("common", "val")], True, "probe:no-command", "-",
+          "default-command-rejected")
+    for p in range(n):
+        want = p == dflt or p in anc[dflt]
+        for argv, want_attrs, suffix in forms(p)[:2]:
+            if nbad[0]:
+                break                         # an earlier report of this parser already explains it
+            probe(argv, dflt, want_attrs, want, "probe:no-command",
+                  "default-command-foreign-option-accepted", "default-command-option-rejected")
+    # first word names an internal option set: outside the property, counted only
+    for i in range(n):
+        if internal[i]:
+            acc.trans()
+            st, code, ns = _parse(ap, [names[i]])
+            feats.add("domain:argv-starts-with-internal-name")
+            acc.feat("outside-domain:internal-name-" + st)
+    return counts
+
+
+def _case_features(case):
+    parents, internal = case["parents"], [bool(x) for x in case["internal"]]
     feats = set(M.shape_features(parents, internal)) | _parents_iteration_features(case)
     feats.add("default:explicit" if _dflt(case) is not None else "default:implicit")
-    viol = []
+    # the probes this declaration calls for (from the model, so that the vacuity guard describes the explored
+    # space and not the behaviour of the implementation)
+    anc = M.ancestors(parents)
+    for c in range(case["n"]):
+        if internal[c]:
+            continue
+        feats |= {"probe:own-option", "probe:common-option", "probe:std-option", "probe:no-command",
+                  "probe:all-inherited-at-once", "probe:bare-command"}
+        for p in range(case["n"]):
+            if p == c:
+                continue
+            if p in parents[c]:
+                feats.add("probe:inherited-direct")
+            elif p in anc[c]:
+                feats.add("probe:inherited-transitive")
+            else:
+                feats.add("probe:foreign-option")
+    return feats
 
-    def bad(sig, msg, obs, exp):
-        viol.append((sig, msg, obs, exp))
 
-    shared = "shape:shared-ancestor" in feats
-    with _Quiet():
-        # ---- construction must succeed for every acyclic declaration
-        kwargs = {}
-        if _dflt(case) is not None:
-            kwargs["default_command"] = names[_dflt(case)]
-        acc.trans()
-        try:
-            ap = ArgParser(_declaration(case), **kwargs)
-        except BaseException as e:  # noqa  (AssertionError, SystemExit, ...)
-            bad("construction-fails-" + ("shared-ancestor" if shared else "plain"),
-                f"ArgParser(commands=...) raised {type(e).__name__} for an acyclic declaration",
-                {"raised": type(e).__name__, "text": str(e)[:200], "declaration": [d[0] for d in _declaration(case)]},
-                "construction succeeds")
-            ap = None
-        added_ok = ap is not None
-        if ap is not None:
-            order = list(range(n)) if case["order"] == "fwd" else list(range(n - 1, -1, -1))
-            try:
-                if case["order"] == "rev":
-                    acc.trans()
-                    ap.add_argument("--common", help="for every command")
-                for i in order:
-                    acc.trans()
-                    ap.get_cmd_parser(names[i]).add_argument("--opt-" + names[i], help="option of " + names[i])
-                if case["order"] == "fwd":
-                    acc.trans()
-                    ap.add_argument("--common", help="for every command")
-            except BaseException as e:  # noqa
-                added_ok = False
-                bad("add-option-fails-" + ("shared-ancestor" if shared else "plain"),
-                    f"adding one option per parser raised {type(e).__name__}",
-                    {"raised": type(e).__name__, "text": str(e)[:200]}, "options can be added")
-
-        n_acc = n_rej = 0
-        if ap is not None and added_ok:
-            dflt = M.default_command(internal, _dflt(case))
-            real = [i for i in range(n) if not internal[i]]
-
-            def probe(argv, want_cmd, want_attr, want_ok, kind, sig_ok, sig_rej):
-                nonlocal n_acc, n_rej
-                acc.trans()
-                st, code, ns = _parse(ap, argv)
-                feats.add(kind)
-                if st == "raise":
-                    bad("parse-raises", f"parse_args({argv}) raised {code}", code, "namespace or SystemExit")
-                    return
-                got_ok = st == "ok"
-                if got_ok:
-                    n_acc += 1
-                else:
-                    n_rej += 1
-                if want_ok and not got_ok:
-                    bad(sig_rej, f"parse_args({argv}) was rejected", f"SystemExit({code})", "accepted")
-                elif not want_ok and got_ok:
-                    bad(sig_ok, f"parse_args({argv}) was accepted", {k: v for k, v in sorted(vars(ns).items())},
-                        "rejected")
-                elif got_ok:
-                    if getattr(ns, "command", None) != names[want_cmd]:
-                        bad("wrong-command" if kind != "probe:no-command" else "default-command-wrong",
-                            f"parse_args({argv}) selected another command",
-                            getattr(ns, "command", None), names[want_cmd])
-                    elif want_attr is not None and getattr(ns, want_attr[0], None) != want_attr[1]:
-                        bad("option-value-lost", f"parse_args({argv}): value of {want_attr[0]} not stored",
-                            getattr(ns, want_attr[0], "<absent>"), want_attr[1])
-
-            for c in real:
-                probe([names[c]], c, None, True, "probe:bare-command", "-", "bare-command-rejected")
-                for p in range(n):
-                    want = p == c or p in anc[c]
-                    if p == c:
-                        kind = "probe:own-option"
-                    elif p in parents[c]:
-                        kind = "probe:inherited-direct"
-                    elif want:
-                        kind = "probe:inherited-transitive"
-                    else:
-                        kind = "probe:foreign-option"
-                    probe([names[c], "--opt-" + names[p], "val"], c, ("opt_" + names[p], "val"), want, kind,
-                          "foreign-option-accepted",
-                          "own-option-rejected" if p == c else
-                          ("inherited-option-rejected-" + ("shared-ancestor" if M.path_counts(parents)[c][p] >= 2
-                                                           else ("direct" if p in parents[c] else "transitive"))))
-                probe([names[c], "--common", "val"], c, ("common", "val"), True, "probe:common-option",
-                      "-", "common-option-rejected")
-                probe([names[c], "-v"], c, ("verbose", 1), True, "probe:std-option", "-", "std-option-rejected")
-                probe([names[c], "--color", "never"], c, ("color", "never"), True, "probe:std-option",
-                      "-", "std-option-rejected")
-                probe([names[c], "--no-color"], c, None, True, "probe:std-option", "-", "std-option-rejected")
-            # argv that does not start with a command name -> the default command
-            probe([], dflt, None, True, "probe:no-command", "-", "default-command-rejected")
-            probe(["-v"], dflt, ("verbose", 1), True, "probe:no-command", "-", "default-command-rejected")
-            probe(["--common", "val"], dflt, ("common", "val"), True, "probe:no-command", "-",
-                  "default-command-rejected")
-            for p in range(n):
-                want = p == dflt or p in anc[dflt]
-                probe(["--opt-" + names[p], "val"], dflt, ("opt_" + names[p], "val"), want, "probe:no-command",
-                      "default-command-foreign-option-accepted", "default-command-option-rejected")
-            # first word names an internal option set: outside the property, counted only
-            for i in range(n):
-                if internal[i]:
-                    acc.trans()
-                    st, code, ns = _parse(ap, [names[i]])
-                    feats.add("domain:argv-starts-with-internal-name")
-                    acc.feat("outside-domain:internal-name-" + st)
-
-    has_edge = any(parents)
+def _finish(case, acc, feats, viol, counts, report):
+    has_edge = any(c["parents"] and any(c["parents"]) for c in case.get("seq", [case]))
     nontrivial = has_edge and "probe:foreign-option" in feats and \
         ("probe:inherited-direct" in feats or "probe:inherited-transitive" in feats)
     if viol:
         outcome = "violation:" + "+".join(sorted({v[0] for v in viol}))
     else:
-        outcome = f"ok:accepted={n_acc}:rejected={n_rej}"
+        outcome = f"ok:accepted={counts[0]}:rejected={counts[1]}"
     if report:
         acc.case(nontrivial=nontrivial, features=sorted(feats), outcome=outcome)
-        if nontrivial and "shape:shared-ancestor" in feats:
+        if nontrivial and "shape:shared-ancestor" in feats and "seq" not in case:
             acc.sample({"declaration": [d[0] for d in _declaration(case)], "default": case["default"],
                         "hashseed": case["hashseed"], "outcome": outcome})
     seen = set()
@@ -300,6 +359,96 @@ def explore_case(case, acc, report=True):
         seen.add(sig)
         acc.violation("C19:" + sig, case, msg, obs, exp)
     return outcome
+
+
+def explore_case(case, acc, report=True):
+    """Build one declaration with the real ArgParser, probe every argv. Returns an outcome label."""
+    if "seq" in case:
+        return explore_seq(case, acc, report)
+    import ak.cli_tools as mod
+    feats = _case_features(case)
+    viol = []
+
+    def bad(sig, msg, obs, exp):
+        viol.append((sig, msg, obs, exp))
+
+    counts = [0, 0]
+    with _Quiet():
+        ap = _construct(mod, case, acc, feats, bad)
+        if ap is not None:
+            counts = _probe_all(ap, case, acc, feats, bad)
+    return _finish(case, acc, feats, viol, counts, report)
+
+
+def explore_seq(case, acc, report=True):
+    """Two parsers built one after the other in a pristine module (ak.cli_tools reloaded): the first one is
+    probed, the second is built and probed, the first is probed again.  A parser must not be influenced by
+    another parser object (same command names on purpose)."""
+    import importlib
+    import ak.cli_tools
+    mod = importlib.reload(ak.cli_tools)
+    first, second = case["seq"]
+    feats = _case_features(first) | _case_features(second) | {"seq:two-parsers"}
+    viol = []
+
+    def bad(sig, msg, obs, exp):
+        viol.append((sig, msg, obs, exp))
+
+    def bad2(sig, msg, obs, exp):
+        viol.append(("second-parser:" + sig, msg, obs, exp))
+
+    def bad3(sig, msg, obs, exp):
+        viol.append(("first-parser-after-second:" + sig, msg, obs, exp))
+
+    counts = [0, 0]
+    with _Quiet():
+        ap1 = _construct(mod, first, acc, feats, bad)
+        if ap1 is not None:
+            _probe_all(ap1, first, acc, feats, bad)
+        if not viol:
+            ap2 = _construct(mod, second, acc, feats, bad2)
+            if ap2 is not None:
+                counts = _probe_all(ap2, second, acc, feats, bad2)
+            if ap1 is not None and not viol:
+                _probe_all(ap1, first, acc, feats, bad3)
+    if viol:
+        # a declaration that misbehaves also when it is the only parser of a pristine module is reported by the
+        # single-declaration family; here only influence between parsers counts
+        from mc import core
+        for single in (first, second):
+            mod = importlib.reload(ak.cli_tools)
+            v1 = []
+            with _Quiet():
+                ap = _construct(mod, single, core.Acc(), set(), lambda *a: v1.append(a))
+                if ap is not None:
+                    _probe_all(ap, single, core.Acc(), set(), lambda *a: v1.append(a))
+            if v1:
+                viol = []
+                feats.add("seq:fails-already-alone")
+                break
+    return _finish(case, acc, feats, viol, counts, report)
+
+
+def _seq_configs():
+    out = []
+    for n in (1, 2, 3):
+        for parents in _graphs(n):
+            for internal in M.internal_choices(n):
+                out.append((n, parents, [int(x) for x in internal]))
+    return out
+
+
+def _explore_seq_block(hs, k, step, acc):
+    cfgs = _seq_configs()
+    for i in range(k, len(cfgs), step):
+        for j in range(len(cfgs)):
+            if acc.expired():
+                return
+            seq = []
+            for (n, parents, internal), naming in ((cfgs[i], 0), (cfgs[j], 0)):
+                seq.append({"n": n, "parents": parents, "internal": internal, "naming": naming, "default": "-",
+                            "order": "fwd", "hashseed": hs})
+            explore_case({"seq": seq, "hashseed": hs}, acc)
 
 
 def _explore_block(hs, n, lo, hi, acc):
@@ -334,7 +483,10 @@ def run_shard(shard, tier, seed, acc):
     hs, n, lo, hi = shard
     hs = str(hs)
     if hs == _own_hashseed():
-        _explore_block(hs, n, lo, hi, acc)
+        if n == "seq":
+            _explore_seq_block(hs, lo, hi, acc)
+        else:
+            _explore_block(hs, n, lo, hi, acc)
         acc.feat("hashseed:" + hs)
         return
     d = _in_subprocess({"mode": "block", "hashseed": hs, "n": n, "lo": lo, "hi": hi, "seed": seed,
@@ -378,7 +530,9 @@ def _child_main():
     payload = json.loads(sys.stdin.read())
     assert me._own_hashseed() == str(payload["hashseed"]), (me._own_hashseed(), payload["hashseed"])
     acc = core.Acc(seed=payload.get("seed", 0), deadline=payload.get("deadline"))
-    if payload["mode"] == "block":
+    if payload["mode"] == "block" and payload["n"] == "seq":
+        me._explore_seq_block(str(payload["hashseed"]), payload["lo"], payload["hi"], acc)
+    elif payload["mode"] == "block":
         me._explore_block(str(payload["hashseed"]), payload["n"], payload["lo"], payload["hi"], acc)
     else:
         me.explore_case(payload["case"], acc)
